@@ -16,7 +16,7 @@ Fixpoint val_eqb (a b : val) {struct a} : bool :=
   match a, b with
   | VS x, VS y | VDrv x, VDrv y => scalar_eqb x y
   | VList k l, VList k' l' =>
-    match k, k' with LIface, LIface | LKnown, LKnown | LOther, LOther => lst_eqb (fun x y => val_eqb x y) l l' | _, _ => false end
+    match k, k' with LIface, LIface | LKnown, LKnown | LOther, LOther | LU8, LU8 => lst_eqb (fun x y => val_eqb x y) l l' | _, _ => false end
   | VNamed n x, VNamed n' x' => String.eqb n n' && val_eqb x x'
   | VNameSrc l, VNameSrc l' | VAnd l, VAnd l' | VOr l, VOr l' | VNot l, VNot l' | VWhere l, VWhere l'
   | KClauses l, KClauses l' | VMapCond l, VMapCond l' | VStructCond l, VStructCond l' => lst_eqb (fun x y => val_eqb x y) l l'
